@@ -187,6 +187,97 @@ pub fn d14_case(rng: &mut Rng) -> (Cfg, Vec<Op>) {
     (Cfg::make(rng, L_ENC), ops)
 }
 
+/// Layer level (what `C03.read_sound / seek_sound / sticky` are about): a sealed stream with one
+/// alteration, driven through the real `EncryptionLayerReader` with a random seek/read history.
+/// Oracle: bytes returned at a known position are the genuine bytes of that position.  Correspondence:
+/// the same history through the model (`enc.trace`), answers compared exactly (positions, bytes,
+/// which calls fail) -- this is where "an error is sticky until a successful seek" is compared.
+fn check_layer(rep: &mut Report, model: &mut Model, kc: &crate::layers::KeyCtx, rng: &mut Rng, fixed: Option<(&[u8], &[u8], Vec<crate::layers::HOp>)>) -> bool {
+    use crate::layers::*;
+    let step = CONSTS.chunk + TAG;
+    let (p, e, fixed_hist): (Vec<u8>, Vec<u8>, Option<Vec<HOp>>) = match fixed {
+        Some((p, e, h)) => (p.to_vec(), e.to_vec(), Some(h)),
+        None => {
+            let len = match rng.below(5) { 0 => CONSTS.chunk * rng.range(1, 3) as usize, 1 => rng.below(CONSTS.chunk as u64) as usize + 1, _ => rng.below(4 * CONSTS.chunk as u64 + 3) as usize + 1 };
+            let p = rng.bytes(len, 3);
+            let mut e = ref_seal(&p, &kc.key, &kc.nonce);
+            let n = e.len();
+            let nslots = n.div_ceil(step);
+            match rng.below(8) {
+                0 | 1 | 2 => { let at = rng.below(n as u64) as usize; e[at] ^= 1 << rng.below(8); }
+                3 => { let k = rng.below(nslots as u64) as usize; let at = (k * step + CONSTS.chunk + rng.below(TAG as u64) as usize).min(n - 1); e[at] ^= 0x10; }
+                4 => { let at = rng.below(n as u64 + 1) as usize; e.truncate(at); }
+                5 => { if nslots >= 2 { let (i, j) = (rng.below(nslots as u64) as usize, rng.below(nslots as u64) as usize); if i != j && (i.max(j) + 1) * step <= n { for k in 0..step { e.swap(i * step + k, j * step + k); } } } }
+                6 => { let k = rng.range(1, 40) as usize; e.extend_from_slice(&rng.bytes(k, 3)); }
+                _ => {}
+            }
+            (p, e, None)
+        }
+    };
+    let len = p.len();
+    let case = |hist: &[HOp]| json!({"layer": true, "p": hx(&p), "stream": hx(&e), "key": hx(&kc.key), "nonce": hx(&kc.nonce), "header": hx(&kc.header), "cfg": kc.cfg.to_json(),
+        "history": hist.iter().map(|h| h.to_json()).collect::<Vec<_>>()});
+    rep.eval(fnv(&[&p[..], &e[..]].concat()), true);
+    rep.count("layer-level");
+    let opened = open_stack(e.clone(), L_ENC, kc, 0);
+    let mut hist: Vec<HOp> = vec![];
+    let mut res: Vec<HRes> = vec![];
+    if let Ok(mut s) = opened {
+        let mut pos: Option<usize> = Some(0);
+        let total = fixed_hist.as_ref().map(|h| h.len()).unwrap_or(14);
+        for k in 0..total {
+            let op = if let Some(h) = &fixed_hist { h[k].clone() } else {
+                let tgt = match rng.below(6) { 0 => 0, 1 => len, 2 => (rng.below((len / CONSTS.chunk) as u64 + 1) as usize * CONSTS.chunk).min(len), 3 => len + rng.below(2 * CONSTS.chunk as u64) as usize, _ => rng.below(len as u64 + 1) as usize };
+                match rng.below(8) {
+                    0 | 1 => HOp::Start(tgt as u64),
+                    2 => HOp::Current(tgt as i64 - pos.unwrap_or(0) as i64),
+                    3 => HOp::End(-(rng.below(len as u64 + 1) as i64)),
+                    _ => HOp::Read(match rng.below(5) { 0 => 1, 1 => CONSTS.chunk, 2 => CONSTS.chunk + 1, 3 => 2 * CONSTS.chunk + 3, _ => rng.below(CONSTS.chunk as u64 + 2) as usize }),
+                }
+            };
+            let r = run_history(&mut *s, std::slice::from_ref(&op)).pop().unwrap();
+            match (&op, &r) {
+                (HOp::Read(_), HRes::Data(d)) => {
+                    if let Some(q) = pos {
+                        if !d.is_empty() && (q + d.len() > len || d[..] != p[q..q + d.len()]) {
+                            hist.push(op.clone());
+                            rep.violation("oracle", "C03/layer-bytes", json!({"what":"wrong-byte","level":"layer"}),
+                                &format!("the encryption reader over an altered stream returned {} bytes at position {q} that are not the genuine bytes", d.len()), case(&hist));
+                            return false;
+                        }
+                        pos = Some(q + d.len());
+                    }
+                }
+                (HOp::Start(n), HRes::Pos(q)) => { pos = if q == n { Some(*n as usize) } else { None }; }
+                // the end of an altered stream is not the genuine end (D14): position unknown afterwards
+                (HOp::End(_), HRes::Pos(_)) => pos = None,
+                (HOp::Current(d), HRes::Pos(q)) => { pos = pos.and_then(|x| if x as i64 + d == *q as i64 { Some(*q as usize) } else { None }); }
+                (_, HRes::Err(_)) => { if !matches!(op, HOp::Read(_)) { pos = None; } }
+                _ => {}
+            }
+            hist.push(op);
+            res.push(r);
+        }
+        rep.count(if res.iter().any(|r| matches!(r, HRes::Err(_))) { "layer:error-seen" } else { "layer:no-error" });
+    } else {
+        rep.count("layer:init-error");
+    }
+    let m = model.call(json!({"cmd":"enc.trace","stream":hx(&e),"key":hx(&kc.key),"nonce":hx(&kc.nonce),"history": hist.iter().map(|h| h.to_json()).collect::<Vec<_>>()}));
+    rep.traces_validated += 1;
+    let shape = |v: &Value| -> Value { if v.get("err").is_some() { json!({"err": true}) } else { v.clone() } };
+    let want: Vec<Value> = res.iter().map(|r| match r { HRes::Pos(q) => json!({"pos": q}), HRes::Data(d) => json!({"data": hx(d)}), HRes::Err(_) => json!({"err": true}) }).collect();
+    let got: Vec<Value> = m["results"].as_array().map(|a| a.iter().map(shape).collect()).unwrap_or_default();
+    let init_same = (m["init"] == "ok") == (hist.len() == res.len() && (res.len() > 0 || m["init"] == "ok") && open_stack(e.clone(), L_ENC, kc, 0).is_ok());
+    if !init_same || ((m["init"] == "ok") && got != want) {
+        let at = got.iter().zip(&want).position(|(x, y)| x != y);
+        rep.violation("corr", "corr:C03/enc.trace", json!({}), &format!("the encryption reader over an altered stream and the model answer differently (first difference at op {at:?})"),
+            json!({"case": case(&hist), "impl": want, "model": m}));
+        return false;
+    }
+    rep.branch("enc.trace:altered");
+    true
+}
+
 pub fn run(ctx: &Ctx) -> Report {
     let mut rep = Report::new("C03");
     let mut model = Model::spawn();
@@ -194,6 +285,12 @@ pub fn run(ctx: &Ctx) -> Report {
     if let Some(r) = &ctx.replay {
         let c = &r["case"];
         let c = if c.get("case").is_some() { &c["case"] } else { c };
+        if c.get("layer").is_some() {
+            let kc = crate::layers::KeyCtx::from_json(c);
+            let hist: Vec<crate::layers::HOp> = c["history"].as_array().unwrap().iter().map(crate::layers::HOp::from_json).collect();
+            check_layer(&mut rep, &mut model, &kc, &mut rng, Some((&unhx(&c["p"]), &unhx(&c["stream"]), hist)));
+            return rep;
+        }
         let cfg = Cfg::from_json(&c["cfg"]);
         let ops: Vec<Op> = c["ops"].as_array().unwrap().iter().map(Op::from_json).collect();
         let mut b = build(&cfg, &ops);
@@ -209,6 +306,12 @@ pub fn run(ctx: &Ctx) -> Report {
         if b.finalized && ops.len() > 1 {
             check_edit(&mut rep, &mut model, &cfg, &ops, &b, &[], &json!({"kind":"drop_tail","k":1}), &[], false);
         }
+    }
+    // layer level: altered sealed streams under random seek/read histories
+    {
+        let kc = crate::layers::KeyCtx::new(&mut rng);
+        let n = if CONSTS.scaled { ctx.budget(1500, 30000) } else { ctx.budget(60, 1500) };
+        for _ in 0..n { if !check_layer(&mut rep, &mut model, &kc, &mut rng, None) && rep.full() { return rep; } }
     }
     let narch = if CONSTS.scaled { ctx.budget(20, 400) } else { ctx.budget(4, 30) };
     for i in 0..narch {
